@@ -201,3 +201,16 @@ package netconf
 // d.subscriptions[id] without subscriptionsLock while the reader goroutine appends under it - a data race outside the
 // twenty properties, recorded as an observation in DESIGN.md I.6, not claimed here)
 //@ guarded [C08] Driver.messages by Driver.messagesLock
+
+// ---- C19 / C08: the NETCONF constructor ------------------------------------------------------------------------------------
+// optBaseN: ghost - the option log as the generic constructor left it
+//@ ghost optBaseN []int
+//@ func NewDriver [C19 C08]
+//@   at call! NewDriver#1 assert #the-generic-driver-gets-the-host-and-all-options-plus-the-netconf-marker arg0 == old(host) && len(arg1) == len(old(opts)) + 1 && arg1[0:len(old(opts))] === old(opts)
+//@   after call NewDriver#1 set optBaseN = optlog
+//@   loop 1 invariant -1 <= rangeindex && rangeindex < len(opts) && isnew(d) && d != nil
+//@   loop 1 invariant #every-option-applied-in-order optlog == optBaseN ++ applied(opts, box("*netconf.Driver", d), rangeindex + 1)
+//@   loop 1 invariant rangeindex == -1 ==> d.messageID == 101 && d.messages != nil && d.subscriptions != nil
+//@   at call dyn#1 assert #the-first-request-id-is-101-until-an-option-says-otherwise rangeindex == 0 ==> d.messageID == 101 && d.messages != nil && d.subscriptions != nil
+//@   ensures #nil-on-error result.1 != nil ==> result.0 == nil
+//@   at return assert #the-prompt-pattern-starts-as-the-1.0-delimiter result.1 == nil ==> result.0 == d && d.Channel.PromptPattern == netconfPatternsInstance.v1Dot0Delim
